@@ -114,6 +114,19 @@ func newTagProg(id string, r *rand.Rand, coverFrom int, _ bool) *tagGen {
 	for _, d := range []*Decl{audit.a, audit.b} {
 		d.Fields = []*Field{{Name: "AuditBy", Type: Basic("string"), Tag: `json:"audit_by"`}, {Name: "AuditAt", Type: Basic("int")}}
 	}
+	// one struct embedded by SEVERAL structs, with a deeper field of the same JSON name in the later embedder
+	shared := add("sharedNames", DStruct, "other.go")
+	deep := add("deepNames", DStruct, "other.go")
+	mid := add("midNames", DStruct, "other.go")
+	for i, d := range []*Decl{shared.a, shared.b} {
+		_ = i
+		d.Fields = []*Field{{Name: "Name", Type: Basic("string")}, {Name: "Rank", Type: Basic("int"), Tag: `json:"rank"`}}
+	}
+	for _, d := range []*Decl{deep.a, deep.b} {
+		d.Fields = []*Field{{Name: "Name", Type: Basic("int")}, {Name: "Other", Type: Basic("bool")}}
+	}
+	mid.a.Fields = []*Field{{Embedded: true, Type: Ref(deep.a)}}
+	mid.b.Fields = []*Field{{Embedded: true, Type: Ref(deep.b)}}
 	metaS.a.Fields = []*Field{{Name: "Owner", Type: Basic("string")}, {Embedded: true, Type: Ref(audit.a)}}
 	metaS.b.Fields = []*Field{{Name: "Owner", Type: Basic("string")}, {Embedded: true, Type: Ref(audit.b)}}
 	nStructs := 5 + r.Intn(3)
@@ -179,6 +192,16 @@ func newTagProg(id string, r *rand.Rand, coverFrom int, _ bool) *tagGen {
 					d.Fields = append(d.Fields, &Field{Name: "UpdatedAt", Type: Basic("int"), Tag: `json:"renamed_updated_at"`})
 				}
 				p.Feature("tagprog:outer-field-redeclares-promoted-go-name-under-another-key")
+			}
+		} else if s == 0 || s == 4 {
+			// sharedNames is embedded twice in the program; the second embedder also embeds midNames,
+			// whose deeper Name loses against sharedNames.Name
+			st.a.Fields = append(st.a.Fields, &Field{Embedded: true, Type: Ref(shared.a)})
+			st.b.Fields = append(st.b.Fields, &Field{Embedded: true, Type: Ref(shared.b)})
+			if s == 4 {
+				st.a.Fields = append(st.a.Fields, &Field{Embedded: true, Type: Ref(mid.a)})
+				st.b.Fields = append(st.b.Fields, &Field{Embedded: true, Type: Ref(mid.b)})
+				p.Feature("tagprog:struct-embedded-twice-with-deeper-clash")
 			}
 		} else if s == 2 {
 			// an unexported guard field (the intended use of guards): never serialised
